@@ -2,6 +2,7 @@
 From Coq Require Import List Bool Arith.
 Import ListNotations.
 Require Import PonyV.Model.C18Session PonyV.Gen.C18Web PonyV.Proofs.C18Proofs.
+Require Import PonyV.Model.C18Obs.   (* observation functions of the correspondence run: built with this cone *)
 #[local] Open Scope list_scope.   (* also keeps the cone scanner's regex from backtracking over the next long identifier *)
 
 (* pony.flask: `session.__exit__(exc=exception)` gives __exit__ no exception type, so _commit_or_rollback sees exc_type None:
